@@ -703,6 +703,14 @@ impl<'a> PGen<'a> {
                     }
                 }
             }
+            13 | 14 if self.g.bool() => {
+                // a slot whose length is not a multiple of 8, then a word read at, before and after
+                // its last (partial) word
+                let len = *self.g.pick(&[1u32, 9, 12, 20, 31, 33, 47]);
+                emit!(self, ri12(O::SWRI, A, HEAP, len));
+                let at = (len / 8 + 2).saturating_sub(self.g.below(3) as u32).min(63);
+                emit!(self, r4(O::SRW, d, st, A, at as u8));
+            }
             13 => {
                 // vary the bytes that get written
                 emit!(self, ri12(O::SW, HEAP, self.sreg(), self.g.below(8) as u32));
